@@ -1,11 +1,11 @@
 set -e
-rm -rf /tmp/probe/sx && mkdir -p /tmp/probe/sx && rsync -a --exclude target --exclude .git /repo/ /tmp/probe/sx/ && cd /tmp/probe/sx && cp /tmp/probe/symnum.rs src/symnum.rs && /tmp/probe/symx/target/debug/symx crate $(ls src/*.rs | grep -v "symnum.rs\|cli.rs\|server.rs") && /tmp/probe/symx/target/debug/symx svgdx tests/integration_tests/*.rs && python3 - <<'PY'
-p='/tmp/probe/sx/src/lib.rs'
+rm -rf /tmp/probe2/sx && mkdir -p /tmp/probe2/sx && rsync -a --exclude target --exclude .git /repo/ /tmp/probe2/sx/ && cd /tmp/probe2/sx && cp /tmp/probe2/symnum.rs src/symnum.rs && /tmp/probe2/symx/target/debug/symx crate $(ls src/*.rs | grep -v "symnum.rs\|cli.rs\|server.rs") && /tmp/probe2/symx/target/debug/symx svgdx tests/integration_tests/*.rs && python3 - <<'PY'
+p='/tmp/probe2/sx/src/lib.rs'
 s=open(p).read()
 s=s.replace('mod types ;','mod types ; pub mod symnum ;',1)
 assert 'pub mod symnum' in s
 open(p,'w').write(s)
-p='/tmp/probe/sx/src/types.rs'
+p='/tmp/probe2/sx/src/types.rs'
 s=open(p).read()
 s=s.replace('pub fn fstr (x : crate :: symnum :: Sx) -> String {','pub fn fstr (x : crate :: symnum :: Sx) -> String { if ! x . is_concrete () { return crate :: symnum :: fstr_sym (x) ; }',1)
 assert 'fstr_sym' in s
